@@ -51,6 +51,13 @@ def obligations(tier, ctx):
         obs.append(Ob(name=f"wire_direct_{what}", params=[("i", "int"), ("p", "int"), ("s", "int")], pre=["0 <= i <= 8", "p in (0, 2, 4)", "s in (0, 1, 6)"],
                       call=f"H.wire_transports(0, {what}, i, p, s)", backend="P", timeout=400,
                       family="transports' serialisers for typed objects built directly (members left to their defaults)"))
+    from symcheck import consts
+    nsz = len(consts.size_cases(70000, extra=(4096, 8192, 65536, 131072)))
+    for what in ((0, 3) if tier == "quick" else (0, 1, 2, 3, 4, 7)):
+        for pat in ((5,) if tier == "quick" else (0, 2, 4, 5)):
+            obs.append(Ob(name=f"wire_long_{what}_p{pat}", params=[("k", "int"), ("i", "int")], pre=[f"0 <= k < {nsz}", ("i == 1" if tier == "quick" else "i in (0, 1, 3)")],
+                          call=f"H.wire_long(0, {what}, k, {pat}, 2, i)", backend="P", timeout=900,
+                          family="size: transports' serialisers for a message whose string members have c-1, c, c+1 characters (c: integer constants of the source and environment sizes)"))
     for which in (0, 1):
         for what in (0, 1, 2, 3):
             obs.append(Ob(name=f"wire{which}_{what}", params=[("i", "int"), ("p", "int"), ("s", "int")], pre=["0 <= i <= 8", "p in (0, 2, 4)", "s in (0, 1, 2, 6)"],
